@@ -37,6 +37,7 @@ func init() {
 			{ID: "C08.16", Desc: "the response a foreground 304 freshens is the one whose validators were sent", Run: func(c *Ctx) { ruleValidatedEntryIsSentEntry(c, "C08.16") }, MinSites: 1},
 			{ID: "C08.17", Desc: "each stored validator is sent on its own account (a background 304 is recognised)", Run: func(c *Ctx) { ruleEachValidatorOnItsOwn(c, "C08.17") }, MinSites: 1},
 			{ID: "C08.18", Desc: "other variants remain listed: the filter of the reference list runs to the end of the list", Run: func(c *Ctx) { ruleFilterLoopRunsToEnd(c, "C08.18") }, MinSites: 1},
+			{ID: "C08.19", Desc: "the memory backend stores a copy of its own for every write-back (a shorter index does not keep the old tail)", Run: func(c *Ctx) { ruleStoredValueIsFresh(c, "C08.19") }, MinSites: 1},
 		},
 	})
 }
